@@ -1095,19 +1095,9 @@ inline void DnsMessage::validateRdataSecurity(const DnsResourceRecord &rr)
     }
   }
 
-  // Validate other record types that should never contain compression pointers in RDATA
-  if (rr.type == DnsType::TXT || rr.type == DnsType::AAAA)
-  {
-    for (std::size_t i = 0; i + 1 < rr.rdata.size(); ++i)
-    {
-      if ((rr.rdata[i] & constants::DNS_COMPRESSION_MASK) == constants::DNS_COMPRESSION_MASK)
-      {
-        throw DnsParseException("Malicious compression pointer detected in " +
-                                std::to_string(static_cast<std::uint16_t>(rr.type)) +
-                                " record RDATA at offset " + std::to_string(i));
-      }
-    }
-  }
+  // TXT and AAAA RDATA are opaque octets (RFC 1035 3.3.14, RFC 3596 2.2): any byte
+  // value, including 0xC0-0xFF, is legitimate there (UTF-8 text, fe80::/10, ff00::/8),
+  // and neither is ever decoded as a name, so there is nothing to validate.
 
   // Additional validation for other record types that shouldn't have compression pointers
   // in specific parts of their RDATA could be added here in the future
